@@ -725,3 +725,8 @@ PROPS["C09"]["manifest"]["technique"] += " + trace acceptance against the interl
 PROPS["C09"]["required_theorems"] += ["Failsafe.Props.C09." + t for t in ["count_enqueues", "accepted_states_inv", "returned_value_was_produced", "hedge_event_needs_slot", "readings_after_return"]]
 PROPS["C04"]["required_theorems"] += ["Failsafe.Props.C04." + t for t in ["kernel_admission", "kernel_records_once", "model_breaker_layer_is_the_codes"]]
 PROPS["C03"]["required_theorems"] += ["Failsafe.Props.C03.composition_clock_monotone", "Failsafe.Props.C03.layer_clock_monotone"]
+
+# C17's "hedges started so far": the hedge trace's `settled` observation (every attempt the coordinator counted and announced was also started) is a
+# C17 concern as much as a C09 one (round 10: a hedge counted by CopyForHedge / OnHedge but never launched)
+PROPS["C17"]["diff"] = PROPS["C17"]["diff"] + [dict(_TRACE_DIFF, slice="tracehedge")]
+PROPS["C17"]["ties"] = PROPS["C17"]["ties"] + ["Failsafe.Props.C09"]
